@@ -80,22 +80,21 @@ def bulk_record(inp):
             warm = lambda: (len(refs) and jaccarddist_array(qa[3], refs), jaccarddist_matrix(qa[3:5], refs), len(refs) > 1 and jaccarddist_pairwise(refs))
             for step in inp['hist']:
                 warm()
-                kind = step[0]
+                kind = step['op']
                 mk = lambda m: np.asarray(pool[m - 1], dtype=rd)
-                if kind == 'set':
-                    refs[step[1]] = mk(step[2]); model[step[1]] = step[2]
-                elif kind == 'del':
-                    del refs[step[1]]; del model[step[1]]
-                elif kind == 'ins':
-                    refs.insert(step[1], mk(step[2])); model.insert(step[1], step[2])
-                elif kind == 'app':
-                    refs.append(mk(step[1])); model.append(step[1])
-                elif kind == 'rev':
+                if kind == 'setitem':
+                    refs[step['i']] = mk(step['v']); model[step['i']] = step['v']
+                elif kind == 'delitem':
+                    del refs[step['i']]; del model[step['i']]
+                elif kind == 'insert':
+                    refs.insert(step['i'], mk(step['v'])); model.insert(step['i'], step['v'])
+                elif kind == 'append':
+                    refs.append(mk(step['v'])); model.append(step['v'])
+                elif kind == 'reverse':
                     refs.reverse(); model.reverse()
-                elif kind == 'swap':
-                    refs[step[1]], refs[step[2]] = refs[step[2]], refs[step[1]]; model[step[1]], model[step[2]] = model[step[2]], model[step[1]]
                 elif kind == 'pop':
-                    refs.pop(); model.pop()
+                    refs.pop(step['i']); model.pop(step['i'])
+            r['r0'] = list(inp['r']); r['hist'] = inp['hist']          # TLC folds SigIndex!Effect over the history and compares with `model`
             r['r'] = model
             inp = dict(inp, r=model)
         if inp.get('qsrc') == 'refs-slice':
@@ -253,7 +252,7 @@ class MutatedLists(Fam):
 
     def inputs(self, ctx):
         n = 150 if ctx.tier == 'quick' else 1500
-        self.rule = (f'{n} seeded histories of 1-5 in-place changes (set / swap / reverse / insert / append / del / pop) on a SignatureList or plain list of 3-6 pool '
+        self.rule = (f'{n} seeded histories of 1-5 in-place changes (the actions of spec/SigIndex!Effect: setitem / insert incl. out-of-range positions / append / delitem / pop / reverse; swaps as two setitems) on a SignatureList or plain list of 3-6 pool '
                      'members, all three bulk entry points called on the object before every change; final call = matrix / array / square / flat')
         rng = ctx.rng
         pool = POOLS['basic']
@@ -266,20 +265,21 @@ class MutatedLists(Fam):
                 kind = rng.choice(['set', 'set', 'swap', 'rev', 'ins', 'app', 'del', 'pop']) if len(model) > 2 else rng.choice(['set', 'ins', 'app'])
                 m = rng.randrange(1, len(pool) + 1)
                 if kind == 'set':
-                    st = ['set', rng.randrange(-len(model), len(model)), m]; model[st[1]] = m
+                    st = [dict(op='setitem', i=rng.randrange(-len(model), len(model)), v=m)]; model[st[0]['i']] = m
                 elif kind == 'swap':
-                    st = ['swap', rng.randrange(len(model)), rng.randrange(len(model))]; model[st[1]], model[st[2]] = model[st[2]], model[st[1]]
+                    i, j = rng.randrange(len(model)), rng.randrange(len(model))
+                    st = [dict(op='setitem', i=i, v=model[j]), dict(op='setitem', i=j, v=model[i])]; model[i], model[j] = model[j], model[i]
                 elif kind == 'rev':
-                    st = ['rev']; model.reverse()
+                    st = [dict(op='reverse')]; model.reverse()
                 elif kind == 'ins':
-                    st = ['ins', rng.randrange(len(model) + 1), m]; model.insert(st[1], m)
+                    st = [dict(op='insert', i=rng.randrange(-len(model) - 2, len(model) + 3), v=m)]; model.insert(st[0]['i'], m)
                 elif kind == 'app':
-                    st = ['app', m]; model.append(m)
+                    st = [dict(op='append', v=m)]; model.append(m)
                 elif kind == 'del':
-                    st = ['del', rng.randrange(len(model))]; del model[st[1]]
+                    st = [dict(op='delitem', i=rng.randrange(-len(model), len(model)))]; del model[st[0]['i']]
                 else:
-                    st = ['pop']; model.pop()
-                hist.append(st)
+                    st = [dict(op='pop', i=-1)]; model.pop()
+                hist += st
             op = ('matrix', 'array', 'square', 'flat')[t % 4 if t % 8 < 6 else 1]
             dt = ('u2', 'u8', 'i4')[t % 3]
             yield dict(op=op, pool=pool, q=[4, 5] if op == 'matrix' else [5] if op == 'array' else [], r=r0, hist=hist, idx=None, idx_as='list', qdtype=dt, rdtype=dt,
